@@ -376,7 +376,7 @@ class Gen:
             ms = 1
         rows = []
         bad = False
-        for _ in range(int(r.integers(1, 7))):
+        for _ in range(int(r.integers(1, 7)) if r.random() < 0.8 else int(r.integers(5, 12))):
             gaps = [ms + int(r.integers(0, max(1, n // k))) for _ in range(k - 1)]
             tot = sum(gaps)
             if tot > n:
@@ -387,6 +387,24 @@ class Gen:
             for g in gaps:
                 row.append(row[-1] + g)
             rows.append(row)
+        # batches related to the previous batch of the same client: same rows in another
+        # order, same first and last row with other rows in between, repeated rows
+        prev = getattr(self, "_last_cuts", {}).get(cl.name)
+        if prev and len(prev[0]) == k and r.random() < 0.35:
+            m = int(r.integers(3))
+            if m == 0:
+                rows = [list(x) for x in prev]
+                r.shuffle(rows)
+            elif m == 1 and len(prev) >= 3:
+                inner = rows[: max(1, len(prev) - 2)]
+                while len(inner) < len(prev) - 2:
+                    inner.append(list(inner[int(r.integers(len(inner)))]))
+                rows = [list(prev[0])] + [list(x) for x in inner[: len(prev) - 2]] + [list(prev[-1])]
+            else:
+                rows = [list(x) for x in prev] + [list(prev[int(r.integers(len(prev)))])]
+        if not hasattr(self, "_last_cuts"):
+            self._last_cuts = {}
+        self._last_cuts[cl.name] = [list(x) for x in rows]
         st = {"cuts": rows}
         c = r.random()
         if c < 0.12:
